@@ -600,6 +600,59 @@ def parts_attribute_and_element_types(ctx):
                  repr(got.get("named"))[:900], repr(got.get("anonymous"))[:900], kind="factory")
 
 
+def enumeration_aliases_and_autoblend(ctx):
+    """(a) a simple type that restricts an enumeration without repeating its values, and the same type written with
+    the values repeated: the same object from the factory, alone and as a member type. (b) with autoblend, schema
+    blocks that refer to one another's namespaces without an xsd:import - in either order of the blocks."""
+    T = "{%s}" % wsdlkit.TNS
+    color = ('<xsd:simpleType name="Color"><xsd:restriction base="xsd:string"><xsd:enumeration value="red"/>'
+             '<xsd:enumeration value="green"/></xsd:restriction></xsd:simpleType>')
+    alias = {"inherited": '<xsd:simpleType name="Shade"><xsd:restriction base="x:Color"/></xsd:simpleType>',
+             "repeated": '<xsd:simpleType name="Shade"><xsd:restriction base="x:Color"><xsd:enumeration value="red"/>'
+                         '<xsd:enumeration value="green"/></xsd:restriction></xsd:simpleType>'}
+    got = {}
+    for style, decl in alias.items():
+        schema = (color + decl + '<xsd:element name="f"><xsd:complexType><xsd:sequence><xsd:element name="s" type="x:Shade"/>'
+                  '</xsd:sequence></xsd:complexType></xsd:element>')
+        meta = {"stream": "enumeration-alias", "style": style}
+        ctx.case(common.canon(meta), True)
+        try:
+            c = wsdlkit.client(wsdlkit.wsdl_doc(schema, "f", None), nosend=True)
+            o = c.factory.create(T + "Shade")
+            env = wsdlkit.envelope_bytes(c.service.f("green"))
+            got[style] = [sorted([k, str(v)] for k, v in o), xmlread.find1(xmlread.find1(xmlread.find1(xmlread.parse(env),
+                          "Body"), "f"), "s").get("text")]
+        except Exception as e:
+            got[style] = "%s: %s" % (type(e).__name__, e)
+    want = [[["green", "green"], ["red", "red"]], "green"]
+    if got.get("inherited") != want or got.get("repeated") != want:
+        ctx.fail("two renderings of one interface build different factory objects", {"stream": "enumeration-alias"},
+                 repr(got.get("inherited")), repr(got.get("repeated")), kind="factory")
+    XS = "http://www.w3.org/2001/XMLSchema"
+    A = ('<xs:schema targetNamespace="urn:a" xmlns:xs="%s" xmlns:pb="urn:b" elementFormDefault="qualified"><xs:element name="Op">'
+         '<xs:complexType><xs:sequence><xs:element name="item" type="pb:Item"/></xs:sequence></xs:complexType></xs:element>'
+         '<xs:element name="OpResponse"><xs:complexType><xs:sequence/></xs:complexType></xs:element></xs:schema>' % XS)
+    B = ('<xs:schema targetNamespace="urn:b" xmlns:xs="%s" xmlns:pa="urn:a" elementFormDefault="qualified"><xs:complexType name="Item">'
+         '<xs:sequence><xs:element name="sku" type="xs:string"/></xs:sequence></xs:complexType></xs:schema>' % XS)
+    reqs = {}
+    for order in ("AB", "BA"):
+        meta = {"stream": "autoblend", "block_order": order}
+        ctx.case(common.canon(meta), True)
+        w = (_HW_WSDL % {"rootdecl": "", "schemas": "".join({"A": A, "B": B}[k] for k in order)}).encode()
+        try:
+            c = wsdlkit.client(w, nosend=True, autoblend=True)
+            env = wsdlkit.envelope_bytes(c.service.Op({"sku": "s1"}))
+            op = xmlread.find1(xmlread.parse(env), "Body")["children"][0]
+            reqs[order] = [list(op["name"]), [[list(k["name"]), [[list(g["name"]), g.get("text")] for g in k["children"]]]
+                                              for k in op["children"]]]
+        except Exception as e:
+            reqs[order] = "%s: %s" % (type(e).__name__, e)
+    want = [["urn:a", "Op"], [[["urn:a", "item"], [[["urn:b", "sku"], "s1"]]]]]
+    if reqs.get("AB") != want or reqs.get("BA") != want:
+        ctx.fail("two renderings of one interface build different requests", {"stream": "autoblend"}, reqs.get("BA"),
+                 reqs.get("AB"), kind="request")
+
+
 def prefix_numbering(ctx):
     """The generated prefixes (ns0, ns1, ...: what str(client) shows and factory.create('nsN:Type') understands) do not
     depend on the order in which a WSDL declares its schema blocks and types - with namespace sorting on or off."""
@@ -649,6 +702,7 @@ def run(ctx):
     handwritten_renderings(ctx)
     prefix_numbering(ctx)
     parts_attribute_and_element_types(ctx)
+    enumeration_aliases_and_autoblend(ctx)
     ctx.sample({"graph": [[1, [2, 3]], [2, [1]], [3, []]], "note": "D14 witness graph"})
 
 
